@@ -173,11 +173,19 @@ def main(run):
     run.cov['unsafe_ops_on_read_paths'] = n_unsafe
     run.cov['excluded_roots'] = len(excluded)
     run.floor('roots', 250, 'read-only roots analysed')
+    # "scheme, authority, path, query and fragment lie inside the input in that order and without overlap": every range an accessor or a
+    # decomposition returns is the span the RFC grammar gives that component (the obligations of C02, run here too because the clause is this
+    # property's), and in every word of the grammar the five spans come in that order
+    from . import scanprop, c02
+    _P, _ctx, _keys, _results, _tot = scanprop.run_property(run, 'C20', lambda o: o in c02.OWNERS, 42, 'generic-syntax components')
+    c02.order_check(run)
+    run.cov['span_obligations'] = len(_keys)
     return run.finish('other', {
         'explanation': f'allocation-effect analysis over the monomorphic instance graph: {n_inst} root instances '
                        f'({len(roots)} functions selected by signature rule), {total_reach} (root, instance) reachability facts, '
                        f'{len(G.nodes)} instances / {sum(len(v) for v in G.adj.values())} edges in the graph; no allocator entry, virtual call, '
-                       f'indirect call or opaque non-core callee reachable; {n_unsafe} unsafe operations on read paths are all reference-preserving casts',
+                       f'indirect call or opaque non-core callee reachable; {n_unsafe} unsafe operations on read paths are all reference-preserving casts; '
+                       f'order / non-overlap: {run.cov.get("span_obligations")} scanner obligations (ranges = grammar spans, Engine B) and the order of the spans in the grammar',
         'evaluations': n_inst,
         'distinct_nontrivial': len(names),
         'rule': 'roots = safe public methods and non-comparison trait methods of the 20 borrowed types, their Parts and Segments iterators, '
